@@ -568,14 +568,31 @@ theorem garbage_end (s : List Char) :
         | false => rfl
         | true => obtain ⟨x, r, hx⟩ := h.2 ha; cases hx
 
-theorem garbage_loop (n : Nat) (s : List Char) (h : s.length < n) :
-    ∃ x, Winnow.repeatTill0 Winnow.any (Winnow.alt [Winnow.peek Winnow.space1, Winnow.peek (Winnow.literal ['|', '|']), Winnow.eof]) n s
-      = .ok ((), x) (garbage s) := by
+/-- what the loop of `garbage` needs of its end test: it succeeds, without consuming, exactly when `atEnd` holds -/
+def EndTest {α : Type} (g : Parser α) : Prop :=
+  ∀ s, (atEnd s = true ∧ ∃ x, g s = .ok x s) ∨ (atEnd s = false ∧ ∃ e, g s = .err e)
+
+/-- the other spelling of the same test: `peek(alt((space1, literal("||"), eof)))` -/
+theorem peek_end (s : List Char) :
+    (atEnd s = true ∧ ∃ x, Winnow.peek (Winnow.alt [Winnow.space1, Winnow.literal ['|', '|'], Winnow.eof]) s = .ok x s) ∨
+    (atEnd s = false ∧ ∃ e, Winnow.peek (Winnow.alt [Winnow.space1, Winnow.literal ['|', '|'], Winnow.eof]) s = .err e) := by
+  have h := end_alt s
+  unfold Winnow.peek
+  cases hg : Winnow.alt [Winnow.space1, Winnow.literal ['|', '|'], Winnow.eof] s with
+  | ok x r => exact Or.inl ⟨h.1 ⟨x, r, hg⟩, x, rfl⟩
+  | err e =>
+    refine Or.inr ⟨?_, e, rfl⟩
+    cases ha : atEnd s with
+    | false => rfl
+    | true => obtain ⟨x, r, hx⟩ := h.2 ha; rw [hx] at hg; cases hg
+
+theorem garbage_loop {α : Type} (g : Parser α) (hend : EndTest g) (n : Nat) (s : List Char) (h : s.length < n) :
+    ∃ x, Winnow.repeatTill0 Winnow.any g n s = .ok ((), x) (garbage s) := by
   induction n generalizing s with
   | zero => omega
   | succ n ih =>
     rw [Winnow.repeatTill0]
-    rcases garbage_end s with ⟨ha, x, hx⟩ | ⟨hne, e, he⟩
+    rcases hend s with ⟨ha, x, hx⟩ | ⟨hne, e, he⟩
     · have hg : garbage s = s := by
         cases s with
         | nil => rfl
@@ -592,10 +609,18 @@ theorem garbage_loop (n : Nat) (s : List Char) (h : s.length < n) :
         rw [this]
         exact ih cs (by simp at h; omega)
 
+/-- `garbage` with any end test of that kind -/
+theorem garbage_gen {α : Type} (g : Parser α) (hend : EndTest g) (s : List Char) :
+    Winnow.map (fun s => Winnow.repeatTill0 Winnow.any g (s.length + 1) s) (fun _ => (none : Option BoundSet)) s
+      = .ok none (garbage s) := by
+  obtain ⟨x, hx⟩ := garbage_loop g hend (s.length + 1) s (by omega)
+  simp only [Winnow.map, hx]
+
 theorem garbage_eq (s : List Char) : Semver.Gen.garbage s = .ok none (garbage s) := by
   unfold Semver.Gen.garbage
-  obtain ⟨x, hx⟩ := garbage_loop (s.length + 1) s (by omega)
-  simp only [Winnow.map, hx]
+  first
+  | exact garbage_gen _ garbage_end s
+  | exact garbage_gen _ peek_end s
 
 theorem simple_eq (s : List Char) : Semver.Gen.simple s = .ok (simple s).1 (simple s).2 := by
   unfold Semver.Gen.simple simple
